@@ -42,6 +42,12 @@ inductive GSpec where
   | otherSpec (children : List GExpr)                        -- TypeSpec, ImportSpec
 end
 
+/-- top-level declarations as `addStmts` distinguishes them -/
+inductive GDecl where
+  | funcDecl (body : Option (Nat × Nat × List GStmt))   -- Body: Lbrace line, Rbrace line, List; none = no body
+  | genDecl (specs : List GSpec)
+  | otherDecl
+
 def GExpr.rng : GExpr → Nat × Nat
   | .funcLit p e .. => (p, e) | .call p e .. => (p, e) | .composite p e .. => (p, e)
   | .keyValue p e .. => (p, e) | .unary p e .. => (p, e) | .structType p e .. => (p, e) | .other p e .. => (p, e)
@@ -134,5 +140,17 @@ def abstrL : List GStmt → List Stmt
   | [] => []
   | s :: ss => abstrS s :: abstrL ss
 end
+
+def specValues : List GSpec → List GExpr
+  | [] => []
+  | .valueSpec _ vs :: r => vs ++ specValues r
+  | .otherSpec _ :: r => specValues r
+
+/-- the extractor's mapping of a top-level declaration (`EncodeFile`) -/
+def abstrD : GDecl → Decl
+  | .funcDecl none => .funcDecl none
+  | .funcDecl (some (lb, rb, list)) => .funcDecl (some (lb, rb, firstPos list, abstrL list))
+  | .genDecl specs => .genDecl (abstrEs (specValues specs))
+  | .otherDecl => .genDecl []
 
 end GoatSpec.GoAst
